@@ -1,1 +1,46 @@
-(* placeholder *)
+(* C09 — level_limit yields the quotient graph and preserves verdicts above the limit. *)
+From Coq Require Import List Bool NArith.
+From PTA Require Import Names Graph Search Rule SpecRule Scan NamesProofs SearchProofs RuleProofs GraphProofs ScanProofs.
+Import ListNotations.
+
+(* modules of the limited architecture = truncated names of the full one *)
+Theorem C09_quotient_modules :
+  forall (comp : Type) (ceqb : comp -> comp -> bool), (forall x y, reflect (x = y) (ceqb x y)) ->
+  forall k mods imports a,
+  In a (build_nodes ceqb (Some k) mods imports) <->
+  exists n, In n (build_nodes ceqb None mods imports) /\ a = flatten (Some k) n.
+Proof. exact @quotient_nodes. Qed.
+Print Assumptions C09_quotient_modules.
+
+(* a imports b exactly when some module truncating to a imports some module truncating to b and a differs from b
+   (an import that coincides with a hierarchy edge is that hierarchy edge) *)
+Theorem C09_quotient_imports :
+  forall (comp : Type) (ceqb : comp -> comp -> bool), (forall x y, reflect (x = y) (ceqb x y)) ->
+  forall k mods imports a b,
+  (forall x y, In (x, y) imports -> In x (build_nodes ceqb None mods imports) /\ In y (build_nodes ceqb None mods imports)) ->
+  (In (a, b) (imps (build_graph ceqb mods imports (Some k))) <->
+   exists x y, In (x, y) (imps (build_graph ceqb mods imports None)) /\
+               a = flatten (Some k) x /\ b = flatten (Some k) y /\ a <> b /\ childb ceqb a b = false).
+Proof. exact @quotient_imps. Qed.
+Print Assumptions C09_quotient_imports.
+
+(* the limit counts levels below module_path *)
+Theorem C09_effective_limit : forall (comp : Type) (c : @scan_cfg comp) k,
+  sc_limit c = Some k -> effective_limit c = Some (k + length (sc_mp c)).
+Proof. intros comp c k H. unfold effective_limit. rewrite H. reflexivity. Qed.
+Print Assumptions C09_effective_limit.
+
+(* K1 (known finding): verdict preservation is FALSE for a rule whose subject and object are related:
+   'proj.p should import proj.p.a' with the single import p.a.x -> p.a.w passes on the full architecture
+   and fails with level_limit = 2 (the witnessing import becomes a self edge of p.a) *)
+Open Scope N_scope.
+Theorem C09_related_refuted :
+  exists (mods : list (list N)) imports k c,
+    verdict N.eqb (fun _ _ => false) (build_graph N.eqb mods imports None) c = Pass /\
+    verdict N.eqb (fun _ _ => false) (build_graph N.eqb mods imports (Some k)) c <> Pass.
+Proof.
+  exists [[1]; [1;2]; [1;2;3]; [1;2;3;4]; [1;2;3;5]], [([1;2;3;4], [1;2;3;5])], 2%nat,
+         (mk_cfg Should true false [Named [1;2]] [Named [1;2;3]]).
+  split; [vm_compute; reflexivity|vm_compute; discriminate].
+Qed.
+Print Assumptions C09_related_refuted.
